@@ -91,6 +91,14 @@ Theorem C07_model_inference_sound :
 Proof. intros p H orc args. exact (wf_sound (tfun (ainfer p)) orc p args (ainfer_certified_all p H)). Qed.
 Print Assumptions C07_model_inference_sound.
 
+(* the pipeline form: accfg-trace-states (model weave) followed by inference (model ainfer).  The only
+   per-program fact left is the decidable, table-independent [cert_side] of the woven program. *)
+Theorem C07_trace_states_then_infer_sound :
+  forall p q, weave p = Some q -> cert_side q = true ->
+  forall (orc : oracle) (args : list Z), chk_prog (tfun (ainfer q)) orc q args = [].
+Proof. intros p q _ H orc args. exact (wf_sound (tfun (ainfer q)) orc q args (ainfer_certified_all q H)). Qed.
+Print Assumptions C07_trace_states_then_infer_sound.
+
 Example C07_cert_side_nonvacuous : cert_side c07_two_cfg_early = true.
 Proof. reflexivity. Qed.
 
